@@ -25,6 +25,10 @@ type KeptState struct {
 	Overs    int    `json:"overs"`   // number of oversized messages in a row (>= 1)
 	Use      string `json:"use"`     // execute | describe-portal | bind-again | describe-stmt | execute-twice
 	Segs     []int  `json:"segs,omitempty"`
+	// SubMin: length words below the 4-byte minimum (one message each, no body), sent where the oversized
+	// messages go: rejected like them (one ErrorResponse, optional ReadyForQuery), what follows is read
+	// as it stands - a length of 0..3 never turns into a skip of 2^32 bytes
+	SubMin []uint32 `json:"sub_min,omitempty"`
 }
 
 func (c KeptState) History() History {
@@ -63,6 +67,9 @@ func (c KeptState) History() History {
 	fill(c.Mid)
 	for i := 0; i < c.Overs; i++ {
 		h.Msgs = append(h.Msgs, script.CMsg{K: "raw", Over: true, Data: pgwire.Msg(c.OverType, make([]byte, c.Limit+c.OverBy))})
+	}
+	for _, lw := range c.SubMin {
+		h.Msgs = append(h.Msgs, script.CMsg{K: "raw", Over: true, MayClose: true, Data: pgwire.RawFrame(c.OverType, lw%4, nil)})
 	}
 	switch c.Use {
 	case "execute":
